@@ -18,12 +18,11 @@ def Kind.ofName : String → Option Kind
   | "2022-blake3-chacha20-poly1305" => some .b3chacha20
   | _ => none
 
-/-- `Base64::decode(s, &mut [0; N])`: error if malformed or longer than N; a shorter value leaves
-the rest of the array zero -/
+/-- `password_to_exact_keys` / `ServerUser::try_from`: a key must be valid base64 of exactly N bytes -/
 def decodeKey (n : Nat) (s : String) : Option Bytes :=
   match Crypto.Base64.decode s with
   | none => none
-  | some b => if b.length > n then none else some (b ++ zeros (n - b.length))
+  | some b => if b.length ≠ n then none else some b
 
 /-- `aead_2022::password_to_keys`: `ipsk1:ipsk2:…:key` -/
 def passwordToKeys (n : Nat) (password : String) : Option (Bytes × List Bytes) :=
@@ -57,5 +56,9 @@ def ctxOfConfig (C : Crypto) (cipher password : String) (users : List (String ×
       | none => none
       | some (key, iks) => some { kind := k, key := key, identityKeys := iks, users := us.filterMap id }
     else some { kind := k, key := opensslBytesToKey C k.n password.toUTF8.toList, users := us.filterMap id }
+
+/-- the UDP paths (`Client::new_static`, `startup_udp`): the same derivation as on TCP -/
+def udpCtxOfConfig (C : Crypto) (cipher password : String) (users : List (String × String)) : Option Ctx :=
+  ctxOfConfig C cipher password users
 
 end Octo.Ss
